@@ -447,6 +447,14 @@ def r7_discard_is_the_users_call(P, rep, ctx, rule="C03.R7"):
                     top = top.parent
                 n += 1
                 ok = c.func.attr == "_delete_latest_container" and top.qual == "ih5.record.IH5Record.discard_patch"
+                if not ok and c.func.attr == "discard_patch":
+                    # a NEW public function that offers discarding under another name / with extras is still the user's call;
+                    # the rule is about existing operations (and private / protocol code) starting to discard on their own
+                    from .pinned import table as _pinned_table
+
+                    if top.qual not in _pinned_table() and not top.name.startswith("_"):
+                        rep.info(f"C03.R7: new public function {top.qual} delegates to discard_patch (the user's call under another name): not judged")
+                        continue
                 rep.check(ok, rule, fi.qual, f"{c.func.attr} is reached from discard_patch only", fi.loc(c), construct=f"{top.name}: {norm(c)[:60]}",
                           message=f"{fi.qual} calls `{norm(c)[:60]}`: the library discards the user's uncommitted changes on its own (successful operations of the session are rolled back where the same session on a plain HDF5 file keeps them)")
     rep.check(n >= 1, rule, "ih5.record", "discard sites found", P.module("ih5.record").relpath, construct="discard call sites", message="discard_patch no longer goes through _delete_latest_container: nothing to check")
